@@ -313,6 +313,14 @@ func (e *Exec) callFunc(fv *FuncV, args []Value, site string) Value {
 	if hn := fn.Name(); strings.HasPrefix(hn, "Verif") || strings.HasPrefix(hn, "verif") {
 		fr.named = true
 	}
+	// the unwinding assertion guards loops of the code under test; std and
+	// third-party loops run over concrete lengths and are bounded by max_steps
+	// (also reported as bound-exceeded, never silently truncated).
+	if e.unwind > 0 && !fr.named {
+		if pk := fn.Package(); pk == nil || pk.Pkg == nil || !strings.HasPrefix(pk.Pkg.Path(), "github.com/basekick-labs/arc") {
+			fr.named = true
+		}
+	}
 	for i, p := range fn.Params {
 		if i < len(args) {
 			fr.env[p] = args[i]
